@@ -59,11 +59,73 @@ def once_templates(rng, gen):
     return out
 
 
+def sharing_templates(rng, gen, n):
+    """Binding site x consuming site: the delayed expression t is bound once (local, positional/named/default argument,
+    object local with and without asserts, field, array element, comprehension variable, method argument) and its name
+    is consumed several times (array, fields, ==, assert, re-bound local, default of an omitted parameter, object assert).
+    Expected: exactly one evaluation when the program succeeds, at most one when it fails."""
+    R = ('var', 'zz_r')
+    Q = ('var', 'zz_q')
+    one = ('num', 1.0)
+    s_ = lambda x: ('str', x)
+    eq = lambda a, b: ('binary', 'eq', a, b)
+    fld = lambda n, e, vis='d': ('fix', n, False, vis, None, e)
+    binders = [
+        ('local', lambda t, B: ('local', [('zz_r', None, t)], B)),
+        ('positional', lambda t, B: ('call', ('func', [('zz_r', None)], B), [('p', t)], False)),
+        ('named', lambda t, B: ('call', ('func', [('zz_r', None)], B), [('n', 'zz_r', t)], False)),
+        ('default', lambda t, B: ('call', ('func', [('zz_q', None), ('zz_r', t)], B), [('p', one)], False)),
+        ('positional+default-uses-it', lambda t, B: ('call', ('func', [('zz_r', None), ('zz_q', R)], ('array', [Q, B])), [('p', t)], False)),
+        ('positional+2-defaults', lambda t, B: ('call', ('func', [('zz_r', None), ('zz_q', R), ('zz_p', Q)], ('array', [('var', 'zz_p'), B, Q])), [('p', t)], False)),
+        ('named+default-uses-it', lambda t, B: ('call', ('func', [('zz_r', None), ('zz_q', R)], ('array', [Q, B])), [('n', 'zz_r', t)], False)),
+        ('local-function+default', lambda t, B: ('local', [('zz_f', [('zz_r', None), ('zz_q', ('array', [R]))], ('array', [Q, B]))],
+                                                 ('call', ('var', 'zz_f'), [('p', t)], False))),
+        ('method+default', lambda t, B: ('call', ('field', ('object', [('fix', 'm', False, 'h', [('zz_r', None), ('zz_q', R)], ('array', [Q, B]))]), 'm'), [('p', t)], False)),
+        ('object-local', lambda t, B: ('field', ('object', [('local', 'zz_r', None, t), fld('out', B)]), 'out')),
+        ('object-local+assert', lambda t, B: ('field', ('object', [('local', 'zz_r', None, t), ('assert', eq(R, R), None), fld('out', B)]), 'out')),
+        ('object-local+2-asserts', lambda t, B: ('object', [('local', 'zz_r', None, t), ('assert', eq(R, R), None),
+                                                            ('assert', ('binary', 'ne', ('std', 'type', [R]), s_('')), s_('m')), fld('out', B), fld('out2', R)])),
+        ('object-local+assert+inherit', lambda t, B: ('binary', 'add', ('object', [('local', 'zz_r', None, t), ('assert', eq(R, R), None), fld('out', B)]),
+                                                      ('object', [fld('more', ('sfield', 'out')), ('assert', eq(('field', ('self',), 'out'), ('sfield', 'out')), None)]))),
+        ('hidden-field', lambda t, B: ('local', [('zz_o', None, ('object', [fld('f', t, 'h')]))], ('local', [('zz_r', None, ('field', ('var', 'zz_o'), 'f'))], B))),
+        ('array-element', lambda t, B: ('local', [('zz_a', None, ('array', [t]))], ('local', [('zz_r', None, ('index', ('var', 'zz_a'), ('num', 0.0)))], B))),
+        ('self-field', lambda t, B: ('field', ('object', [fld('zz_h', t, 'h'), fld('out', ('local', [('zz_r', None, ('field', ('self',), 'zz_h'))], B))]), 'out')),
+        ('super-field', lambda t, B: ('field', ('binary', 'add', ('object', [fld('zz_h', t, 'h')]),
+                                                ('object', [fld('out', ('local', [('zz_r', None, ('sfield', 'zz_h'))], B))])), 'out')),
+        ('self-field-manifested', lambda t, B: ('binary', 'add', ('object', [fld('zz_h', t, 'h'), fld('out', ('local', [('zz_r', None, ('field', ('self',), 'zz_h'))], B))]),
+                                                ('object', [fld('extra', ('field', ('self',), 'zz_h'))]))),
+        ('comprehension-var', lambda t, B: ('index', ('arrcomp', B, [('for', 'zz_r', ('array', [t]))]), ('num', 0.0))),
+        ('std.map-callback', lambda t, B: ('index', ('std', 'map', [('func', [('zz_r', None)], B), ('array', [t])]), ('num', 0.0))),
+        ('local-function', lambda t, B: ('local', [('zz_f', [('zz_r', None)], B)], ('call', ('var', 'zz_f'), [('p', t)], False))),
+    ]
+    consumers = [
+        ('array', ('array', [R, R, R])),
+        ('fields', ('object', [fld('a', R), fld('b', R)])),
+        ('eq', eq(R, R)),
+        ('assert-expr', ('assert', eq(R, R), None, R)),
+        ('rebound', ('local', [('zz_s', None, R)], ('array', [('var', 'zz_s'), R]))),
+        ('into-default', ('call', ('func', [('a', None), ('b', ('var', 'a'))], ('array', [('var', 'a'), ('var', 'b'), R])), [('p', R)], False)),
+        ('if', ('if', eq(R, R), R, R)),
+        ('object-assert', ('object', [('assert', eq(R, R), None), fld('a', R)])),
+        ('object-local-again', ('object', [('local', 'zz_l', None, R), ('assert', eq(('var', 'zz_l'), R), None), fld('a', ('var', 'zz_l')), fld('b', ('var', 'zz_l'))])),
+        ('mixed', eq(('index', ('array', [R]), ('num', 0.0)), ('field', ('object', [fld('x', R)]), 'x'))),
+    ]
+    combos = [(b, c) for b in binders for c in consumers]
+    if n < len(combos):
+        combos = rng.sample(combos, n)
+    out = []
+    for (bn, b), (cn, c) in combos:
+        e = gen.gen(rng.choice(['num', 'str', 'arr', 'obj']), {}, 2, False)
+        t = ('std', 'trace', [('str', 'ONCE'), e])
+        out.append((b(t, c), 1, bn + ' / ' + cn))
+    return out
+
+
 def run(rep):
     rep.rule = ("generated core programs; for each, rewrite sites chosen uniformly among all expression nodes x rewrite "
                 "kinds (name with local, identity function, one-element array, one-field object when the node does not "
                 "mention self/super/$, dead local/argument/element/field/branch); std.trace planted by the generator and by "
-                "evaluation-count templates; non-trivial = rewrite below the root of a program that passes analysis, or a "
+                "evaluation-count templates (binding site x consuming site); non-trivial = rewrite below the root of a program that passes analysis, or a "
                 "program emitting >= 1 trace; distinct by source text")
     rep.assumptions = ["programs whose original or rewritten outcome is StackOverflow are skipped (rewrites add frames)",
                        "tailstrict is not generated (a parenthesised or renamed call is not in tail position by design)"]
@@ -118,12 +180,29 @@ def run(rep):
     tcases = []
     for _ in range(40 if rep.tier == 'quick' else 1500):
         tcases += once_templates(rng, gen)
-    outs = vlib.impl([vlib.eval_line(G.to_jsonnet(p), max_stack=500, traces=1) for p, _ in tcases])
+    tcases = [(p, e, 'basic') for p, e in tcases]
+    tcases += sharing_templates(rng, gen, 100000)
+    if rep.tier != 'quick':
+        for _ in range(20):
+            tcases += sharing_templates(rng, gen, 100000)
+    outs = vlib.impl([vlib.eval_line(G.to_jsonnet(p), max_stack=500, traces=1) for p, _, _ in tcases])
+    # the same templates through the model: value and std.trace sequence
+    _, tio, tmo = C.run_pair([p for p, _, _ in tcases], max_stack=500, fuel=6000)
+    for (p, _, label), a, b in zip(tcases, tio, tmo):
+        if b.startswith('unsupported') or b.startswith('gas') or ' analyze ' in a or ' parse ' in a or label.startswith('std.map'):
+            continue   # (the core model has no std.map)
+        rep.bump('template-vs-model')
+        if C.norm(a) != C.norm(b):
+            rep.disagreement('c04:' + G.to_jsonnet(p), 'outcome or std.trace sequence of a sharing template (%s) differs from the model' % label,
+                             {'src': G.to_jsonnet(p), 'sexp': G.to_sexp(p), 'impl': a, 'model': b})
     once_hex = vlib.hx('ONCE')
-    for (p, expect), a in zip(tcases, outs):
+    for (p, expect, label), a in zip(tcases, outs):
         src = G.to_jsonnet(p)
         rep.count(src, True)
-        rep.bump('once-template')
+        rep.bump('once-template' if label == 'basic' else 'sharing-template')
+        if label != 'basic' and (' parse ' in a or ' analyze ' in a or ' lex ' in a):
+            rep.disagreement('c04once:' + src, 'sharing template (%s) does not pass analysis' % label, {'src': src, 'impl': a})
+            continue
         if a.startswith('panic') or a.startswith('crash'):
             rep.violation('c04:' + src, 'evaluation crashed: ' + a[:200], {'src': src, 'impl': a})
             continue
